@@ -602,12 +602,58 @@ func rpcRoundTrip(addr string, cfg *tls.Config) (bool, string) {
 	return ok, d
 }
 
+// runReplicationProbes: the credential list for the leader's replication endpoint (other client
+// CA, client-cert-auth, allowed hostname from the configuration file), decided by a
+// Metadata/Get round trip; a failure is attributed to the credential only if the endpoint
+// serves its rightful client right afterwards.
+func runReplicationProbes(r *ev.Run, g tlsBinGroup, in *instance, p *pki, rng *rand.Rand, b serverOpts, all bool) {
+	creds := credentialsFor(rng, b, all)
+	canon, err := p.mint(creds[0])
+	if err != nil {
+		r.Inconclusive(g.id + ": replication endpoint: mint: " + err.Error())
+		return
+	}
+	where := "binary-leader-replication"
+	r.Distinct("option_sets_binary", "leader-replication:"+b.class())
+	for _, s := range creds {
+		cert, err := p.mint(s)
+		if err != nil {
+			r.Count("unmintable_variants", 1)
+			continue
+		}
+		vers := tlsVersions
+		if !all && s.Class != "canonical" {
+			vers = vers[rng.Intn(2):][:1]
+		}
+		for _, tv := range vers {
+			if !in.alive() {
+				r.Inconclusive(g.id + ": server process is gone: " + lastLine(in.logTail(3)))
+				return
+			}
+			ok, _, detail := roundTrip(in.repl, clientTLS(p, cert, tv.v), true)
+			r.Count("tls_rpc_probes", 1)
+			r.Count("tls_rpc_probes_replication_endpoint", 1)
+			if !ok {
+				if s.Class == "canonical" {
+					for i := 0; i < 3 && !ok; i++ {
+						time.Sleep(300 * time.Millisecond)
+						ok, _, detail = roundTrip(in.repl, clientTLS(p, cert, tv.v), true)
+					}
+				} else if alive, _, d2 := roundTrip(in.repl, clientTLS(p, canon, tls.VersionTLS13), true); !alive {
+					r.Inconclusive(fmt.Sprintf("%s: replication endpoint: %s failed (%s) but the rightful client fails too (%s)", g.id, s.Class, detail, d2))
+					continue
+				}
+			}
+			judgeTLS(r, tlsWitness{Group: g.id, Tier: r.Tier, Seed: r.Seed, Where: where, Options: b, Cred: s, TLSMax: tv.name, Args: in.args}, ok)
+		}
+	}
+}
+
 // runResumptionBinary: the leader's API endpoint (A: trusted CA + the group's name rule) and its
-// replication endpoint (B: the *other* client CA, client-cert-auth) serve the same key pair.
+// replication endpoint (B: the *other* client CA, client-cert-auth, its own allowed hostname) serve the same key pair.
 // A client right for one endpoint, with a TLS session cache, completes an RPC there and then
 // connects to the other endpoint: that one must judge the client by its own rule.
-func runResumptionBinary(r *ev.Run, g tlsBinGroup, in *instance, p *pki, rng *rand.Rand, a serverOpts) {
-	b := serverOpts{CA: true, TrustOther: true, ClientCertAuth: true}
+func runResumptionBinary(r *ev.Run, g tlsBinGroup, in *instance, p *pki, rng *rand.Rand, a, b serverOpts) {
 	type side struct {
 		o    serverOpts
 		addr string
@@ -700,9 +746,15 @@ func runTLSBinary(r *ev.Run, g tlsBinGroup, rng *rand.Rand, all bool) {
 	goodCfg := func() *tls.Config { return clientTLS(p, canon, tls.VersionTLS13) }
 
 	spec := instSpec{Name: g.id, Kind: g.kind, TLS: tf}
+	var replOpts serverOpts
 	if g.kind == "leader" {
 		// the replication endpoint serves the same key pair but trusts the other client CA
-		spec.ReplTLS = &tlsFlags{Cert: p.srvCertFile, Key: p.srvKeyFile, CA: p.otherCAFile, ClientCertAuth: true}
+		// and has an allowed hostname of its own (an address where the API rule is a DNS name, a DNS name otherwise)
+		replOpts = serverOpts{CA: true, TrustOther: true, ClientCertAuth: true, AllowedHostname: randHost(rng)}
+		if o.AllowedHostname != "" && net.ParseIP(o.AllowedHostname) == nil {
+			replOpts.AllowedHostname = randIP(rng)
+		}
+		spec.ReplTLS = &tlsFlags{Cert: p.srvCertFile, Key: p.srvKeyFile, CA: p.otherCAFile, ClientCertAuth: true, AllowedHostname: replOpts.AllowedHostname}
 	}
 	var lead *instance
 	if g.kind == "follower" {
@@ -778,7 +830,8 @@ func runTLSBinary(r *ev.Run, g tlsBinGroup, rng *rand.Rand, all bool) {
 		}
 	}
 	if g.kind == "leader" {
-		runResumptionBinary(r, g, in, p, rng, o)
+		runReplicationProbes(r, g, in, p, rng, replOpts, all)
+		runResumptionBinary(r, g, in, p, rng, o, replOpts)
 	}
 	// CA-file states against the running process. A refusal needs no liveness control here (the
 	// process is checked to be alive, and the rightful client must be served again once the
